@@ -19,7 +19,7 @@ LEVEL = 'fault_enumeration'
 QUICK_S = 45
 THOROUGH_S = 480
 CHUNK = 20
-WORLD_CAP_S = 90
+WORLD_CAP_S = 60
 HANG_IS_VIOLATION = True
 SELFCHECK_N = {'quick': 8, 'thorough': 30}
 REAL_COMPONENTS = ['pysmi lexer + parser (SmiV2, SmiV1, SmiV1Compat dialects)', 'MibCompiler.compile (share of worlds)', 'FileReader (torn / capped file)', 'HttpReader (cut response body)']
